@@ -79,7 +79,7 @@ def spell(spec, draw_order, alias_pick, spaces):
     if spec["color"] is not None:
         groups.append(spec["color"])
     if spec["bgcolor"] is not None:
-        groups.append("on " + spec["bgcolor"])
+        groups.append("on " + (spec["bgcolor"].upper() if (spec["bgcolor"].startswith("#") and sum(draw_order) % 2) else spec["bgcolor"]))
     if spec["link"] is not None:
         groups.append("link " + spec["link"])
     order = sorted(range(len(groups)), key=lambda i: draw_order[i % len(draw_order)] * 100 + i)
@@ -157,6 +157,37 @@ class RoundTrip(Part):
             if not (dn == d) and not ctx.violations:
                 ctx.violation("roundtrip", "C06/roundtrip/derived-normalize-" + how, "normalize(str(%s of %r)) parses to another style" % (how, src))
             ctx.cls("derive:" + how + (":warm" if spec.get("warm") else ""))
+        # other documented ways of giving the same colours: Color objects built from numbers, and hex digits in upper case
+        from rich.color import Color
+
+        def alt(c, mode):
+            if c and c.startswith("#"):
+                if mode == 0:
+                    return Color.from_rgb(int(c[1:3], 16), int(c[3:5], 16), int(c[5:7], 16))
+                if mode == 1:
+                    return Color.from_triplet(Color.parse(c).triplet)
+                return c.upper()
+            if c and c.startswith("rgb(") and mode == 2:
+                return c.upper()
+            return c
+
+        if (s["color"] or "").startswith(("#", "rgb(")) or (s["bgcolor"] or "").startswith(("#", "rgb(")):
+            for mode in (0, 1, 2):
+                other_way = sut(Style, color=alt(s["color"], mode), bgcolor=alt(s["bgcolor"], mode), link=s["link"], **s["attrs"])
+                if not (other_way == style) or hash(other_way) != hash(style):
+                    ctx.violation("spelling", "C06/spelling/colour-object", "the style built with %s for its colours is not equal (or hashes differently) to the one built from %r / %r" % (
+                        ["Color.from_rgb", "Color.from_triplet", "upper-case spelling"][mode], s["color"], s["bgcolor"]))
+                    break
+                t2 = sut(str, other_way)
+                try:
+                    b2 = Style.parse(t2)
+                except Exception as e:  # noqa
+                    ctx.violation("roundtrip", "C06/roundtrip/colour-object", "str() of the style built with %s is %r, which does not parse: %r" % (["Color.from_rgb", "Color.from_triplet", "upper-case spelling"][mode], t2, e))
+                    break
+                if not (b2 == style):
+                    ctx.violation("roundtrip", "C06/roundtrip/colour-object", "str() of the style built with %s is %r, which parses to another style" % (["Color.from_rgb", "Color.from_triplet", "upper-case spelling"][mode], t2))
+                    break
+            ctx.cls("colours-given-another-way")
         definition = spell(s, spec["order"], spec["alias"], spec["spaces"])
         if spec.get("bad") is not None:
             # history: a definition was rejected just before (what it had understood up to the error must not carry over)
